@@ -99,6 +99,17 @@ static void put_name(const MPT_STRUCT(node) *n)
 	const char *id;
 	if (!n->ident._len) { out_s("-"); return; }
 	id = mpt_identifier_data(&n->ident);
+	if (!n->ident._charset) {
+		/* binary key (mpt_identifier_set(id, 0, len) + data): printed as #<hex> */
+		static const char d[] = "0123456789abcdef";
+		char buf[2 * 64 + 2];
+		size_t i, l = n->ident._len < 64 ? n->ident._len : 64;
+		buf[0] = '#';
+		for (i = 0; i < l; i++) { buf[1 + 2*i] = d[((uint8_t) id[i]) >> 4]; buf[2 + 2*i] = d[((uint8_t) id[i]) & 15]; }
+		buf[1 + 2*l] = 0;
+		out_s(buf);
+		return;
+	}
 	if (n->ident._charset != MPT_CHARSET(UTF8)) { out_s("?charset"); return; }
 	if (n->ident._len == 1 && !id[0]) { out_s("."); return; }
 	if (id[n->ident._len - 1]) { out_s("?unterminated"); return; }
@@ -390,6 +401,22 @@ int main(void)
 				result("refused", "null");
 				continue;
 			}
+			result_n("ok", reg(a));
+		}
+		else if (!strcmp(op, "newkey") && drv_nw == 4) {
+			/* a node whose identifier is a binary key of 1..8 bytes (no text name) */
+			uint8_t *kd = 0; size_t kl = 0; int isnull = 0;
+			void *dst;
+			if (drv_parse_data(drv_w[2], &kd, &kl, &isnull) || isnull || !kl || kl > 8 || strlen(drv_w[3]) > 200) { free(kd); puts("bad-op"); continue; }
+			if (!(a = mpt_node_new(kl))) { free(kd); result("refused", "null"); continue; }
+			if (!(dst = mpt_identifier_set(&a->ident, 0, (int) kl)) || set_value(a, drv_w[3]) < 0) {
+				free(kd);
+				mpt_node_destroy(a);
+				result("refused", "null");
+				continue;
+			}
+			memcpy(dst, kd, kl);
+			free(kd);
 			result_n("ok", reg(a));
 		}
 		else if (!strcmp(op, "newsmall") && drv_nw == 4) {
